@@ -85,7 +85,7 @@ def normal_form(v, sub=None):
     if v[0] == "sqempty":
         return []
     if v[0] in ("sqatom", "membytes"):
-        return _drop_empty([(v, U.affine_norm(A.INT(0, 64)), U.affine_norm(subst(seq_len(v), sub)))])
+        return _drop_empty([(v, list(U.affine_norm(A.INT(0, 64))), list(U.affine_norm(subst(seq_len(v), sub))))])
     if v[0] == "sqcat":
         a, b = normal_form(v[1], sub), normal_form(v[2], sub)
         if a is None or b is None:
@@ -110,10 +110,10 @@ def normal_form(v, sub=None):
 def aff_add(a, b):
     co = dict(a[0])
     for k, c in b[0].items():
-        co[k] = (co.get(k, 0) + c) % (1 << 64)
+        co[k] = co.get(k, 0) + c
         if co[k] == 0:
             del co[k]
-    return (co, (a[1] + b[1]) % (1 << 64))
+    return [co, (a[1] + b[1]) % (1 << 64)]
 
 
 def _drop_empty(segs):
@@ -131,12 +131,64 @@ def show_nf(nf):
 def show_aff(a):
     parts = []
     for k, c in sorted(a[0].items(), key=repr):
-        cs = c if c < (1 << 63) else c - (1 << 64)
+        cs = c
         parts.append(("%+d*" % cs if cs not in (1,) else "+") + A.show(k)[:24])
     k = a[1] if a[1] < (1 << 63) else a[1] - (1 << 64)
     if k or not parts:
         parts.append("%+d" % k)
     return "".join(parts).lstrip("+")
+
+
+def implies_le(path, x, y, upto=None, strict=False, norm=None):
+    """does the path establish x <= y (x < y when strict)? a reason, or None. Terms are compared after `norm`; a
+    comparison a <= b on the path also discharges x <= y when y - x and b - a are the same affine form (both sides
+    shifted by the same amount; wrap-around is the overflow checks' business, not this rule's)."""
+    norm = norm or (lambda t: t)
+    nx, ny = norm(x), norm(y)
+    sx, sy = U.strip(nx), U.strip(ny)
+    if A.is_int(sx) and A.is_int(sy):
+        return "constants" if (sx[1] < sy[1] or (sx[1] == sy[1] and not strict)) else None
+    if U.affine_eq(nx, ny) and not strict:
+        return "same quantity"
+    if not strict and sx[0] == "ret" and sx[1] == "min" and any(U.affine_eq(norm(a), ny) for a in sx[2]):
+        return "min() with the length"
+    if A.is_int(sx) and sx[1] == 0 and not strict:
+        return "zero"
+    diff = U.affine_norm(("bin", "Sub", ny, nx, 64))
+    if not diff[0] and diff[1] < (1 << 63) and (diff[1] > 0 or not strict):
+        return "differs by the constant %d" % diff[1]
+    conds = path.conds if upto is None else path.conds[:upto]
+    for t, rel, val in conds:
+        if t[0] != "bin" or t[1] not in A.CMP_OPS:
+            continue
+        if rel == "!=":
+            if 0 not in val:
+                continue
+            val = 1  # a boolean known to differ from 0
+        a, b = norm(t[2]), norm(t[3])
+        o = t[1]
+        if val == 0:
+            o = {"Lt": "Ge", "Le": "Gt", "Gt": "Le", "Ge": "Lt", "Eq": "Ne", "Ne": "Eq"}[o]
+        # bring to the form  lo (<|<=) hi
+        if o in ("Lt", "Le"):
+            lo, hi, st = a, b, o == "Lt"
+        elif o in ("Gt", "Ge"):
+            lo, hi, st = b, a, o == "Gt"
+        elif o == "Eq":
+            for lo, hi in ((a, b), (b, a)):
+                d2 = U.affine_norm(("bin", "Sub", hi, lo, 64))
+                if d2[0] == diff[0] and d2[1] == diff[1] and not strict:
+                    return "guarded by =="
+            continue
+        else:
+            continue
+        d2 = U.affine_norm(("bin", "Sub", hi, lo, 64))
+        if d2[0] == diff[0] and d2[1] == diff[1] and (st or not strict):
+            return "guarded by %s" % t[1]
+        # lo < hi  implies  lo + 1 <= hi
+        if st and not strict and d2[0] == diff[0] and (d2[1] - 1) % (1 << 64) == diff[1]:
+            return "guarded by %s (strict)" % t[1]
+    return None
 
 
 class SeqMapPrims:
